@@ -16,7 +16,12 @@ GOOD = ["Aa ::= INTEGER (0..5)", "Bb ::= SEQUENCE { x BOOLEAN, y Aa OPTIONAL }",
 BAD = {'real': "{n} ::= REAL", 'videotex': "{n} ::= VideotexString", 'inverted': "{n} ::= INTEGER (10..5)", 'setof-real': "{n} ::= SET OF REAL",
        'macro': "{N} MACRO ::= BEGIN TYPE NOTATION ::= empty VALUE NOTATION ::= empty END", 'time': "{n} ::= TIME", 'choice-real': "{n} ::= CHOICE {{ r REAL }}"}
 NAMES = ['Aa', 'Bb', 'cc', 'Dd']
-MANGLED = {'Aa': 'Aa', 'Bb': 'Bb', 'cc': 'CC', 'Dd': 'Dd', 'Zz': 'Zz'}
+MANGLED = {'Aa': 'Aa', 'Bb': 'Bb', 'cc': 'CC', 'Dd': 'Dd', 'Zz': 'Zz', 'va': 'VA'}
+# X.680 12.2: a typereference is any identifier starting with an upper-case letter - `S`, `AB`, `A1` are type references as
+# much as `Ss`; a value assignment whose governor is such a reference must be generated or reported like any other
+TYPE_NAMES = ['Ss', 'S', 'AB', 'A1', 'A-B', 'Ab-C']
+TYPED_VALUES = [("SEQUENCE {{ a BOOLEAN }}", "{{ a TRUE }}"), ("SEQUENCE OF INTEGER", "{{ 1, 2 }}"), ("INTEGER", "5"), ("BOOLEAN", "TRUE"),
+                ("CHOICE {{ a BOOLEAN, b NULL }}", "a : TRUE"), ("ENUMERATED {{ p, q }}", "q"), ("BIT STRING", "'0101'B"), ("SET {{ a INTEGER }}", "{{ a 3 }}")]
 
 
 def jobs(tier, seed):
@@ -118,6 +123,14 @@ def shapes(tier):
                 text = base + "\n" + text
             out.append((f"C10 every definition unsupported[{','.join(ks)}]{' next to a healthy module' if other else ''}", text,
                         {'keep': ['Zz'] if other else [], 'replaced': nms, 'base': base, 'kinds': ks}))
+    for tn in TYPE_NAMES:
+        for ty, val in TYPED_VALUES:
+            ty, val = ty.format(), val.format()
+            mt = tn.replace('-', '')
+            MANGLED[tn] = mt
+            text = f"M DEFINITIONS AUTOMATIC TAGS ::= BEGIN {tn} ::= {ty} va {tn} ::= {val} END"
+            out.append((f"C10 value of the referenced type {'<single letter>' if len(tn) == 1 else '<all capitals>' if tn.isupper() and tn.isalpha() else '<mixed>'} ::= {ty.split('{')[0].strip()}", text,
+                        {'keep': [tn, 'va'], 'replaced': [], 'base': None, 'kinds': ()}))
     return out
 
 
